@@ -192,7 +192,10 @@ impl<const N: u32> PxE1<{ N }> {
                 }
                 frac &= Self::mask();
 
-                exp <<= 29 - reg_len;
+                // with a 30-bit regime no exponent bit is left (exp is 0 there)
+                if reg_len <= 29 {
+                    exp <<= 29 - reg_len;
+                }
                 let mut u_z = Self::pack_to_ui(regime, exp as u32, frac);
 
                 //n+1 frac bit is 1. Need to check if another bit is 1 too if not round to even
@@ -315,7 +318,10 @@ impl<const N: u32> PxE1<{ N }> {
                 }
                 frac &= Self::mask();
 
-                exp <<= 29 - reg_len;
+                // with a 30-bit regime no exponent bit is left (exp is 0 there)
+                if reg_len <= 29 {
+                    exp <<= 29 - reg_len;
+                }
                 let mut u_z = Self::pack_to_ui(regime, exp as u32, frac);
 
                 //n+1 frac bit is 1. Need to check if another bit is 1 too if not round to even
@@ -425,7 +431,10 @@ impl<const N: u32> ops::Mul for PxE1<{ N }> {
                     0
                 };
 
-                exp <<= 29 - reg_len;
+                // with a 30-bit regime no exponent bit is left (exp is 0 there)
+                if reg_len <= 29 {
+                    exp <<= 29 - reg_len;
+                }
                 let mut u_z = Self::pack_to_ui(regime, exp as u32, frac);
 
                 if bit_n_plus_one {
@@ -535,7 +544,10 @@ impl<const N: u32> ops::Div for PxE1<{ N }> {
                     frac = 0;
                 }
 
-                exp <<= 29 - reg_len;
+                // with a 30-bit regime no exponent bit is left (exp is 0 there)
+                if reg_len <= 29 {
+                    exp <<= 29 - reg_len;
+                }
                 let mut u_z = Self::pack_to_ui(regime, exp as u32, frac);
 
                 if bit_n_plus_one {
